@@ -39,3 +39,49 @@ Section Spec.
   | Subseq_skip : forall s x l, Subseq s l -> Subseq s (x :: l)
   | Subseq_take : forall s x l, Subseq s l -> Subseq (x :: s) (x :: l).
 End Spec.
+
+(* ---- stepwise search: the paths the rules allow ---- *)
+From PV Require Import C18.Model.
+
+(* A path is built from the empty path by repeatedly appending a feature of the search space that
+   _is_allowed accepts after the features already on the path. *)
+Inductive Chain (tbl : combo_table) (keys : list key) : list key -> Prop :=
+| Chain_nil : Chain tbl keys []
+| Chain_snoc : forall p f, Chain tbl keys p -> In f keys -> allowed tbl keys f p = true -> Chain tbl keys (p ++ [f]).
+
+(* strictly increasing list of integers *)
+Fixpoint increasing (l : list BinNums.Z) : Prop :=
+  match l with
+  | a :: ((b :: _) as tl) => BinInt.Z.lt a b /\ increasing tl
+  | _ => True
+  end.
+
+(* ---- the documented acceptance rule, written independently of _is_allowed's peripheral test ----
+   A feature may be added after the features `prev` iff it is new and
+   - (peripheral compartments) its count is the next one: larger than every count already added and
+     with no count of the search space strictly in between (one compartment step at a time, increasing);
+   - (anything else) it is not TRANSITS(0,NODEPOT), no feature of its category was added before, and it
+     forms no excluded combination with a feature added before. *)
+Definition used_counts (prev : list key) : list BinNums.Z := map karg1 (filter is_periph prev).
+Definition next_count (na used : list BinNums.Z) (n : BinNums.Z) : bool :=
+  forallb (fun u => BinInt.Z.ltb u n) used &&
+  forallb (fun m => BinInt.Z.leb n m || existsb (fun u => BinInt.Z.leb m u) used) na.
+Definition doc_allowed (tbl : combo_table) (keys : list key) (cur : key) (prev : list key) : bool :=
+  negb (memk cur prev) &&
+  if is_periph cur then next_count (n_all keys) (used_counts prev) (karg1 cur)
+  else negb (key_eqb cur [AS s_TRANSITS; AI BinNums.Z0; AS s_NODEPOT]) &&
+       negb (existsb (fun f => atom_eqb (kcat f) (kcat cur)) prev) &&
+       negb (combo_hit tbl cur prev).
+
+Fixpoint increasingb (l : list BinNums.Z) : bool :=
+  match l with a :: ((b :: _) as tl) => BinInt.Z.ltb a b && increasingb tl | _ => true end.
+(* guard under which _is_allowed IS the documented rule: at most two peripheral features, listed in
+   increasing order of their count (modelsearch sorts the feature dictionary) *)
+Definition g_periph_sorted (keys : list key) : bool :=
+  Nat.leb (length (filter is_periph keys)) 2 && increasingb (n_all keys).
+
+(* paths built with the documented rule *)
+Inductive DocChain (tbl : combo_table) (keys : list key) : list key -> Prop :=
+| DocChain_nil : DocChain tbl keys []
+| DocChain_snoc : forall p f, DocChain tbl keys p -> In f keys -> doc_allowed tbl keys f p = true ->
+                              DocChain tbl keys (p ++ [f]).
